@@ -9,8 +9,9 @@ rmdir $wt
 git -C /repo worktree add --detach $wt >/dev/null 2>&1 || { echo "worktree failed"; exit 3; }
 if ! git -C $wt apply $patch; then echo "PATCH DOES NOT APPLY"; git -C /repo worktree remove --force $wt; exit 3; fi
 export VERIF_REPO=$wt
+cp /verif/bin/vcheck $wt/.vcheck
 out=$(mktemp /tmp/st-out-XXXX)
-VERIF_EVIDENCE_DIR=$wt/.ev /verif/bin/vcheck run $id --tier $tier "$@" > $out 2>&1
+VERIF_EVIDENCE_DIR=$wt/.ev $wt/.vcheck run $id --tier $tier "$@" > $out 2>&1
 rc=$?
 grep -E "^(VIOLATION|INCONCLUSIVE|OK|KNOWN-FINDING|counterexample)" $out | cut -c1-400 | head -12
 echo "exit=$rc"
